@@ -12,7 +12,7 @@
    token read in both cases, and the event traces are compared with the real ones on every run. *)
 From Coq Require Import List ZArith Bool.
 Import ListNotations.
-From LC Require Import Base Tree ApiStep ScanAction FlexEngine Tokens Lexer LexFacts Parser Reader ReadFacts.
+From LC Require Import Base Tree ApiStep ScanAction FlexEngine Tokens Lexer LexFacts Parser Reader ReadFacts RwFacts FileNames.
 Local Open Scope Z_scope.
 
 (* the ledger invariant of the include machine, for every table set, action list, file system, include
@@ -71,3 +71,60 @@ Theorem C11_read_file_unopenable : forall atof FS c path,
   (fs_lookup FS path = None -> rd_events (config_read_file atof FS c path) = []) /\
   (fs_lookup FS path = Some FDir -> rd_events (config_read_file atof FS c path) = [EvOpen path; EvClose path]).
 Proof. intros. unfold config_read_file. split; intros ->; reflexivity. Qed.
+
+
+(* ------------------------------------------------------------------------------------------------------- *)
+(* the file names reported by errors and by settings remain valid until the configuration is cleared or     *)
+(* destroyed (FileNames.v) : a name is valid iff it is an element of the vector that owns the strings         *)
+(* (config->filenames = c_files); files_valid c = every setting's file and the error file are owned            *)
+(* ------------------------------------------------------------------------------------------------------- *)
+
+(* a read establishes it, from ANY configuration, whatever the point of failure *)
+Theorem C11_read_names_valid : forall atof FS c top text,
+  let r := config_read atof FS c top text in
+  rd_out_ r = RdOk \/ rd_out_ r = RdFail -> files_valid (rd_cfg r).
+Proof. exact config_read_files_valid. Qed.
+Print Assumptions C11_read_names_valid.
+
+Theorem C11_read_file_names_valid : forall atof FS c path,
+  settings_valid c ->
+  let r := config_read_file atof FS c path in
+  rd_out_ r = RdOk \/ rd_out_ r = RdFail -> files_valid (rd_cfg r).
+Proof. exact config_read_file_files_valid. Qed.
+Print Assumptions C11_read_file_names_valid.
+
+(* along the token stream the vector only grows, and every token's file is owned by it *)
+Theorem C11_names_monotone : forall atof FS c top text i t,
+  let toks := fst (lex_top atof FS c top text) in
+  nth_error toks i = Some t ->
+  okf (lt_nfiles t) top /\ okf (lt_nfiles t) (lt_file t) /\
+  (forall j u, nth_error toks j = Some u -> (i <= j)%nat -> prefix (lt_nfiles t) (lt_nfiles u)).
+Proof. exact lex_top_files_by_position. Qed.
+Print Assumptions C11_names_monotone.
+
+(* every API call keeps the settings' names valid; the error file too, except a config_clear made while an error file is
+   set (the property promises validity only until the configuration is cleared) *)
+Theorem C11_api_keeps_names_valid : forall c o,
+  files_valid c -> (o = OClear -> e_file (c_err c) = None) -> files_valid (step_cfg c o).
+Proof. exact api_step_files_valid. Qed.
+Print Assumptions C11_api_keeps_names_valid.
+
+(* hence in every history of reads, writes and API calls from config_init: the settings' names are always valid, and
+   so is the error file as long as no config_clear is made while it is set *)
+Theorem C11_names_valid_in_every_history : forall atof fmt strict FS c,
+  reach atof fmt strict FS c -> settings_valid c /\ (strict = true -> files_valid c).
+Proof.
+  intros atof fmt strict FS c H. split; [exact (settings_valid_reachable atof fmt strict FS c H)|].
+  intros ->. exact (files_valid_reachable atof fmt FS c H).
+Qed.
+Print Assumptions C11_names_valid_in_every_history.
+
+(* the exception is real (model = code: config_clear frees the vector and leaves error_file alone): after a failed read of
+   an included file, config_clear leaves config_error_file() pointing into the freed vector; and non-vacuity: a two-level
+   include failing in the innermost file *)
+Example C11_names_examples :
+  files_validb ex_stale_cfg = false /\ e_file (c_err ex_stale_cfg) <> None /\ c_files ex_stale_cfg = [] /\
+  rd_out_ ex_read = RdFail /\ e_file (c_err (rd_cfg ex_read)) = nth_error (c_files (rd_cfg ex_read)) 2 /\
+  List.length (c_files (rd_cfg ex_read)) = 3%nat /\ files_validb (rd_cfg ex_read) = true /\
+  files_validb ex_bad_cfg = false.
+Proof. vm_compute. repeat split; try reflexivity; discriminate. Qed.
